@@ -176,19 +176,24 @@ inductive Path where
   | noPrev | lutShram | both | noOverlap | broadcastIfm2 | loop
 deriving Repr, DecidableEq, Inhabited
 
+/-- `ifm_overlaps = range_lists_overlap(prev_ofm_ranges, ifm_ranges)` -/
+def ifmOverlaps (prev op : BlockOp) : Bool :=
+  rangeListsOverlap (getAddressRanges prev.ofm) (getAddressRanges op.ifm)
+
+/-- `ifm2_overlaps` (False without a non-scalar IFM2) -/
+def ifm2Overlaps (prev op : BlockOp) : Bool :=
+  if hasIfm2 op then
+    (match op.ifm2 with | some f => rangeListsOverlap (getAddressRanges prev.ofm) (getAddressRanges f) | none => false)
+  else false
+
 /-- the part of `calc_blockdep` before the loops: which early return is taken, or the loop context -/
 def classify (a : AccRow) (prev : Option BlockOp) (op : BlockOp) : Option (Path × Option LoopCtx) :=
   match prev with
   | none => some (.noPrev, none)
   | some prev =>
     if prev.usesLut ∧ a.shramReservedUnusedBanks = 0 ∧ ¬ op.usesLut then some (.lutShram, none) else
-    let prevOfmRanges := getAddressRanges prev.ofm
-    let ifmOverlaps := rangeListsOverlap prevOfmRanges (getAddressRanges op.ifm)
-    let ifm2Overlaps := if hasIfm2 op then
-        (match op.ifm2 with | some f => rangeListsOverlap prevOfmRanges (getAddressRanges f) | none => false)
-      else false
-    if ifmOverlaps ∧ ifm2Overlaps then some (.both, none)
-    else if ¬ ifmOverlaps ∧ ¬ ifm2Overlaps then some (.noOverlap, none)
+    if ifmOverlaps prev op = true ∧ ifm2Overlaps prev op = true then some (.both, none)
+    else if ifmOverlaps prev op = false ∧ ifm2Overlaps prev op = false then some (.noOverlap, none)
     else
       -- exactly one of IFM / IFM2 overlaps
       let mkLoop (overlappingFm : FMap) : Option (Path × Option LoopCtx) :=
@@ -201,7 +206,7 @@ def classify (a : AccRow) (prev : Option BlockOp) (op : BlockOp) : Option (Path 
             prevOfmSize := shapeToBlk prev.ofm.shape, prevOfmBlock := shapeToBlk prev.blockConfig,
             overlappingFm := overlappingFm, prevOfm := prev.ofm })
         | _, _ => none
-      if ifm2Overlaps then
+      if ifm2Overlaps prev op then
         match op.ifm2 with
         | none => none          -- unreachable: ifm2_overlaps implies has_ifm2
         | some f2 =>
